@@ -41,13 +41,13 @@ from lts import LTS, skey, strip
 
 MANIFEST = dict(
     technique="TLA+ spec (Glob: recursive glob reference + regex-translation/alternation/anchor/match-discipline implementation layer; GlobCache: files_pattern cache machine) model-checked by TLC over all pattern lists and names up to a bound; expected results for every (pattern list, name) and (document, name) emitted by TLC and replayed into FilesParagraph.matches / parsed paragraphs / find_files_paragraph; recorded histories validated by TLC (TraceGlob)",
-    text="TLC enumerates every list of <= 2 patterns of length <= 2 over {a, b, /, *, ?, backslash, LF} against every name up to length 2 (thorough, with '.' added: 1 pattern x <= 3 with names <= 4, 2 x <= 2 with names <= 3, and 2 x <= 3 with names <= 3 over the 5 symbols a * ? backslash LF) and checks that the model of globs_to_re + fullmatch agrees with the recursive glob reference, that exactly the ill-formed lists raise, and that the find loop returns the last matching paragraph of every document of <= 3 paragraphs; the re.match discipline (defect fixed by ae99ec4), a non-DOTALL dot, first-match-wins and a stale cache are rejected by TLC in every run. The expected results printed by TLC are replayed on the real code through create(), text parsing with multi-line Files fields, Files re-assignment (cache) and find_files_paragraph under literal concretizations chosen to hit re.escape and flags; random Unicode histories are validated by TLC against the reference.",
+    text="TLC enumerates every list of <= 2 patterns of length <= 2 over {a, b, *, ?, backslash, LF} against every name up to length 2 (thorough, with '/' and '.' added: 1 pattern x <= 3 with names <= 4, 2 x <= 2 with names <= 3, and 2 x <= 3 with names <= 3 over the 5 symbols a * ? backslash LF) and checks that the model of globs_to_re + fullmatch agrees with the recursive glob reference, that exactly the ill-formed lists raise, and that the find loop returns the last matching paragraph of every document of <= 3 paragraphs; the re.match discipline (defect fixed by ae99ec4), a non-DOTALL dot, first-match-wins and a stale cache are rejected by TLC in every run. The expected results printed by TLC are replayed on the real code through create(), text parsing with multi-line Files fields, Files re-assignment (cache) and find_files_paragraph under literal concretizations chosen to hit re.escape and flags; random Unicode histories are validated by TLC against the reference.",
     note="Small-scope: bounds above; concretization of literal symbols is sampled (seeded). Unspecified: patterns that are empty or contain whitespace (not representable in a Files field), empty pattern lists, find on documents with an ill-formed paragraph (ValueError or last well-formed match). Trusted: TLC, the 1:1 renaming of literal code points, the projection (bool of matches(), identity index of the returned paragraph).",
     design="5 (C16)")
 
 W = int(os.environ.get("VERIF_TLC_WORKERS", "8"))
 # debugging aid: run only some binding legs (all by default), e.g. VERIF_C16_LEGS=trace
-LEGS = set(os.environ.get("VERIF_C16_LEGS", "match,doc,cache,trace").split(","))
+LEGS = set(os.environ.get("VERIF_C16_LEGS", "match,doc,cache,memo,trace").split(","))
 JOPTS = ["-XX:ParallelGCThreads=2"]      # 16 GC threads cost more than they give on these small heaps
 
 STAR, QM, BS, LF = 42, 63, 92, 10
@@ -61,9 +61,9 @@ assert all(not c.isspace() and c not in "*?\\" for c in LIT_POOL) and len(set(LI
 
 # ------------------------------------------------------------------ TLC plumbing
 
-def cfg_text(name, inv=None, **subst):
+def cfg_text(name, inv=None, props=None, **subst):
     """configuration derived from a file under spec/: constants replaced, optionally the
-    SPECIFICATION (key SPEC) and the list of invariants (inv=[...])"""
+    SPECIFICATION (key SPEC) and the list of invariants / action properties checked"""
     s = open(os.path.join(core.SPEC, name)).read()
     for k, v in subst.items():
         if k == "SPEC":
@@ -72,9 +72,10 @@ def cfg_text(name, inv=None, **subst):
             s, cnt = re.subn(r"(?m)^(\s*%s\s*=\s*).*$" % k, lambda m: m.group(1) + v, s)
         if cnt != 1:
             raise core.MachineryError("cfg %s: cannot substitute %s" % (name, k))
-    if inv is not None:
+    if inv is not None or props is not None:
         s = re.sub(r"(?m)^(INVARIANT|PROPERTY) .*\n", "", s)
-        s += "".join("INVARIANT %s\n" % i for i in inv)
+        s += "".join("INVARIANT %s\n" % i for i in inv or [])
+        s += "".join("PROPERTY %s\n" % i for i in props or [])
     return s
 
 
@@ -151,6 +152,8 @@ def representable(ps):
 
 
 SEPS = [" ", " ", "  ", "\t", "\n ", "\n\t", " \n "]
+# separators a too-coarse memo key might join a pattern list with
+JOINERS = ["\n", "\n", " ", "", "|", ",", "\x00", "', '", "\t"]
 
 
 def rand_seps(rng, npat, textual):
@@ -258,9 +261,46 @@ def check_match_case(ps, ok, mset, names, cmap, route, lay):
     return None
 
 
+def obs_translate(pats):
+    """rx = globs_to_re(pats) called directly -> (outcome, rx)"""
+    from debian import copyright as C
+    try:
+        return "ok", C.globs_to_re(list(pats))
+    except ValueError:
+        return "FormatError", None
+    except Exception as e:
+        return "EXC:" + type(e).__name__, None
+
+
+def obs_query(rx, name):
+    """what FilesParagraph.matches does with the translated list"""
+    try:
+        return "match" if rx.fullmatch(name) is not None else "nomatch"
+    except Exception as e:
+        return "EXC:" + type(e).__name__
+
+
+def check_direct_case(ps, ok, mset, names, cmap):
+    """patterns containing LF (or blanks) are in the property's domain but only reachable through
+    globs_to_re(list) itself; globs_to_re(ps).fullmatch(name) -- what FilesParagraph.matches
+    computes -- is judged against the reference.  Returns None or (name, expected, observed)"""
+    pats = [cstr(cmap, p) for p in ps]
+    got, rx = obs_translate(pats)
+    if got != ("ok" if ok else "FormatError"):
+        return (None, "ok" if ok else "FormatError", got)
+    if rx is None:
+        return None
+    for nm in names:
+        exp = "match" if nm in mset else "nomatch"
+        got = obs_query(rx, cstr(cmap, nm))
+        if got != exp:
+            return (list(nm), exp, got)
+    return None
+
+
 def check_unrepresentable(ctx, ps, ok, mset, names, stats):
-    """empty / whitespace-containing patterns: unspecified for the paragraph API (executed, any
-    ValueError/TypeError or success accepted); globs_to_re + fullmatch is a diagnostic observable"""
+    """lists with an EMPTY pattern: unspecified (executed, any ValueError/TypeError or success of
+    create() accepted); globs_to_re + fullmatch is a diagnostic observable for them"""
     from debian import copyright as C
     pats = [cstr({}, p) for p in ps]
     try:
@@ -312,14 +352,25 @@ def run_cache_path(start, path, cmap, route="prog", bad=()):
     """replay a behaviour of the cache model; returns None or a message.  bad: the ill-formed
     pattern lists of the pool (skey), for which an eager ValueError is accepted as well"""
     try:
-        p = build_para(route, [cstr(cmap, g) for g in start], {"first": "", "seps": [" "] * (len(start) - 1)})
+        c = build_doc(route, [[cstr(cmap, g) for g in start]], [0], [{"first": "", "seps": [" "] * (len(start) - 1)}])
+        objs = list(c.all_files_paragraphs())
+        if len(objs) != 1:
+            raise LookupError("document with one Files paragraph shows %d" % len(objs))
+        p = objs[0]
     except Exception as e:
         if isinstance(e, ValueError) and skey(start) in bad:
             return None
         return "construction failed: %s: %s" % (type(e).__name__, e)
     for i, e in enumerate(path):
         a = e["args"][0]
-        if e["op"] == "setfiles":
+        if e["op"] == "find":
+            k = obs_find(c, cstr(cmap, a))
+            got = {1: "found", 0: "none", -1: "FormatError"}.get(k, "EXC(%s)" % k)
+            what = "find_files_paragraph(%r) on the document whose only Files paragraph has Files %r" % (
+                cstr(cmap, a), [cstr(cmap, g) for g in e["from"]["files"]])
+            if e["res"] == "FormatError" and got == "none":
+                continue            # ill-formed paragraph skipped instead of reported: unspecified for find
+        elif e["op"] == "setfiles":
             try:
                 p.files = [cstr(cmap, g) for g in a]
                 got = "ok"
@@ -336,8 +387,51 @@ def run_cache_path(start, path, cmap, route="prog", bad=()):
     return None
 
 
+MEMO_FIXED = {10, 32, 39, 44, 63, 42, 92, 120, 124}      # code points of the memo pool that are not renamed
+
+
+def memo_cmap(x, y):
+    return {97: ord(x), 98: ord(y)}
+
+
+def run_memo_path(path, cmap):
+    """replay a behaviour of GlobMemo: direct globs_to_re calls (patterns with LF / blanks),
+    fullmatch on the regex held, and fresh FilesParagraph objects in between"""
+    rx = None
+    for i, e in enumerate(path):
+        a = e["args"]
+        if e["op"] == "translate":
+            pats = [cstr(cmap, g) for g in a[0]]
+            got, new = obs_translate(pats)
+            if new is not None:
+                rx = new
+            what = "globs_to_re(%r)" % (pats,)
+        elif e["op"] == "query":
+            if rx is None:
+                return "step %d: no regex to query (harness)" % (i + 1)
+            got = obs_query(rx, cstr(cmap, a[0]))
+            what = "globs_to_re(%r).fullmatch(%r)" % ([cstr(cmap, g) for g in e["from"][0]], cstr(cmap, a[0]))
+        else:
+            pats = [cstr(cmap, g) for g in a[0]]
+            try:
+                para = build_para("prog", pats, {"first": "", "seps": [" "] * (len(pats) - 1)})
+                got = obs_match(para, cstr(cmap, a[1]))
+            except ValueError:
+                got = "FormatError"
+            except Exception as ex:
+                got = "EXC:" + type(ex).__name__
+            what = "FilesParagraph.create(%r).matches(%r)" % (pats, cstr(cmap, a[1]))
+        if got != e["res"]:
+            done = [("%s(%s)" % (x["op"], ", ".join(repr(cstr(cmap, g)) if (not g or isinstance(g[0], int)) else repr([cstr(cmap, h) for h in g])
+                                                     for g in x["args"]))) for x in path[:i]]
+            return "step %d %s -> %s, specification says %s; earlier in this process: %s" % (
+                i + 1, what, got, e["res"], "; ".join(done[-6:]) or "-")
+    return None
+
+
 def cache_key_drift(ctx, g):
-    """diagnostic: the private cache key follows the model's key"""
+    """diagnostic only: the private cache key follows the model's key.  Anything that goes wrong
+    while peeking at private attributes is spec drift, never an alarm and never a crash"""
     try:
         from debian import copyright as C
         p = C.FilesParagraph.create(["a*"], "x", C.License("y"))
@@ -346,8 +440,8 @@ def cache_key_drift(ctx, g):
         k1 = p._FilesParagraph__cached_files_pat[0]
         if k0 != "" or k1 != "a*":
             ctx.drift("cache key is %r then %r; model: '' then 'a*'" % (k0, k1))
-    except AttributeError as e:
-        ctx.drift("private cache layout changed: %s" % e)
+    except Exception as e:
+        ctx.drift("private cache layout changed: %s: %s" % (type(e).__name__, e))
 
 
 # ------------------------------------------------------------------ (b) code -> spec
@@ -445,12 +539,36 @@ def rand_script(rng, nops):
     lays = [rand_seps(rng, len(ps), route in ("text", "lines")) for ps in paras]
     ops = []
     cur = [list(ps) for ps in paras]
-    for _ in range(nops):
+    held = None                         # list last handed to globs_to_re directly
+    pending = []                        # direct translations still to be issued (other order of a colliding pair)
+    while len(ops) < nops:
         r = rng.random()
         k = rng.randrange(npar)
-        if r < 0.5:
+        if ops and ops[-1][0] in ("matches", "find", "query") and r < 0.18:
+            ops.append(list(ops[-1]))   # the same question again: the answer must not depend on having asked
+        elif pending and r < 0.6:
+            held = pending.pop(0)
+            ops.append(["translate", held])
+            for _ in range(rng.randint(1, 3)):
+                ops.append(["query", rand_name(rng, held + [JOINERS[0].join(held)], nalpha)])
+        elif r < 0.22:
+            # globs_to_re called directly: patterns may contain LF / blanks; a list and the list obtained
+            # by joining (or splitting) it at a separator, in both orders, within this process
+            base = plist() if rng.random() < 0.5 else list(rng.choice(cur))
+            if len(base) < 2:
+                base = base + [rand_pattern(rng, alpha, 3, False)]
+            sep = rng.choice(JOINERS)
+            i = rng.randrange(len(base) - 1)
+            joined = base[:i] + [base[i] + sep + base[i + 1]] + base[i + 2:]
+            pair = [base, joined] if rng.random() < 0.5 else [joined, base]
+            if rng.random() < 0.3:
+                pair.append(list(pair[0]))
+            pending += pair
+        elif held is not None and r < 0.3:
+            ops.append(["query", rand_name(rng, held, nalpha)])
+        elif r < 0.6:
             ops.append(["matches", k, rand_name(rng, cur[k], nalpha)])
-        elif r < 0.85:
+        elif r < 0.87:
             ops.append(["find", rand_name(rng, cur[rng.randrange(npar)], nalpha)])
         else:
             new = plist()
@@ -480,11 +598,23 @@ def execute(script):
     if len(objs) != len(script["paras"]):
         return None, "document shows %d Files paragraphs, built with %d" % (len(objs), len(script["paras"]))
     events = [{"op": "doc", "d": [[cps(p) for p in ps] for ps in script["paras"]]}]
-    for op in script["ops"]:
+    rx = None
+    for oi, op in enumerate(script["ops"]):
+        for ev in events[1:]:
+            ev.setdefault("oi", oi - 1)     # index of the call an event belongs to (ignored by TraceGlob)
         if op[0] == "matches":
             events.append({"op": "matches", "k": op[1] + 1, "n": cps(op[2]), "res": obs_match(objs[op[1]], op[2])})
         elif op[0] == "find":
             events.append({"op": "find", "n": cps(op[1]), "res": obs_find(c, op[1])})
+        elif op[0] == "translate":
+            got, new = obs_translate(op[1])
+            if new is not None:
+                rx = new
+            events.append({"op": "translate", "ps": [cps(p) for p in op[1]], "res": got})
+        elif op[0] == "query":
+            if rx is None:
+                continue        # nothing translated successfully yet
+            events.append({"op": "query", "n": cps(op[1]), "res": obs_query(rx, op[1])})
         else:
             try:
                 objs[op[1]].files = list(op[2])
@@ -493,6 +623,8 @@ def execute(script):
                     break           # reported eagerly: the history ends here
                 return None, "files = %r raised %s" % (op[2], type(e).__name__)
             events.append({"op": "setfiles", "k": op[1] + 1, "ps": [cps(p) for p in op[2]]})
+    for ev in events[1:]:
+        ev.setdefault("oi", len(script["ops"]) - 1)
     return {"events": events, "script": script}, None
 
 
@@ -501,6 +633,9 @@ def corrupt(t, how):
     import copy
     t = copy.deepcopy(t)
     for e in t["events"]:
+        if how == "qflip" and e["op"] == "query" and e["res"] in ("match", "nomatch"):
+            e["res"] = "nomatch" if e["res"] == "match" else "match"
+            return t
         if how == "flip" and e["op"] == "matches" and e["res"] in ("match", "nomatch"):
             e["res"] = "nomatch" if e["res"] == "match" else "match"
             return t
@@ -529,6 +664,17 @@ STATIC_CONTROLS = [
     _ctl([[[97]], [[42]]], {"op": "find", "n": [97], "res": 1}),                                # first instead of last
     _ctl([[[97]]], {"op": "find", "n": [98], "res": 1}),                                        # None expected
     _ctl([[[97]]], {"op": "setfiles", "k": 1, "ps": [[98]]}, {"op": "matches", "k": 1, "n": [97], "res": "match"}),  # stale
+    # the format error is reported once, then the paragraph answers (error-path side effect)
+    _ctl([[[92, 97]]], {"op": "matches", "k": 1, "n": [97], "res": "FormatError"},
+         {"op": "matches", "k": 1, "n": [97], "res": "nomatch"}),
+    # find on an ill-formed document changes its mind for the same name
+    _ctl([[[42]], [[92, 97]]], {"op": "find", "n": [97], "res": -1}, {"op": "find", "n": [97], "res": 1}),
+    # ['a\nb'] translated first, then ['a', 'b'] answers like the former (memo keyed by the joined text)
+    _ctl([[[97]]], {"op": "translate", "ps": [[97, 10, 98]], "res": "ok"}, {"op": "translate", "ps": [[97], [98]], "res": "ok"},
+         {"op": "query", "n": [97], "res": "nomatch"}),
+    _ctl([[[97]]], {"op": "translate", "ps": [[97], [98]], "res": "ok"}, {"op": "translate", "ps": [[97, 10, 98]], "res": "ok"},
+         {"op": "query", "n": [97, 10, 98], "res": "nomatch"}),
+    _ctl([[[97]]], {"op": "translate", "ps": [[92]], "res": "ok"}),
 ]
 
 
@@ -538,7 +684,7 @@ def validate(ctx, traces, with_controls=True):
     history it was made from is accepted"""
     dyn = []
     if with_controls:
-        for how in ("flip", "noerr", "find", "first"):
+        for how in ("flip", "noerr", "find", "first", "qflip"):
             got = 0
             for i, t in enumerate(traces):
                 c = corrupt(t, how)
@@ -573,7 +719,7 @@ def run(ctx):
     quick = ctx.tier == "quick"
     rng = ctx.rng
     ctx.assumptions += [
-        "bounded: every list of <= 2 patterns x <= 2 symbols x every name <= 2 over {a,b,/,*,?,\\,LF} (replayed cases: also '.')"
+        "bounded: every list of <= 2 patterns x <= 2 symbols x every name <= 2 over {a,b,*,?,\\,LF} (replayed cases and thorough: also '/' and '.')"
         + ("" if quick else "; 1 x <= 3 x names <= 4; 2 x <= 2 x names <= 3; 2 x <= 3 x names <= 3 over {a,*,?,\\,LF}")
         + "; documents of <= 3 Files paragraphs",
         "literal symbols are concretized by sampled injective renamings (regex metacharacters, non-ASCII, case pairs)",
@@ -601,11 +747,21 @@ def run(ctx):
         dict(name="neg-prefix", module="Glob", cfg=cfg_text(big, Discipline='"prefix"'), expect="MatchesIffGlob"),
         dict(name="neg-nodotall", module="Glob", cfg=cfg_text(big, DotAll="FALSE"), expect="MatchesIffGlob"),
         dict(name="neg-findfirst", module="Glob", cfg=cfg_text("MC_Glob_doc_quick.cfg", FindFirst="TRUE"), expect="LastWins"),
-        dict(name="neg-stalecache", module="GlobCache", cfg=cfg_text("MC_GlobCache.cfg", StaleCache="TRUE", Emit='"none"'),
-             expect="SameResult"),
+        dict(name="neg-stalecache", module="GlobCache", expect="SameResult",
+             cfg=cfg_text("MC_GlobCache.cfg", props=["SameResult"], StaleCache="TRUE", Emit='"none"')),
+        dict(name="neg-keybeforetranslate", module="GlobCache", expect="SameResult",
+             cfg=cfg_text("MC_GlobCache.cfg", props=["SameResult"], KeyBeforeTranslate="TRUE", Emit='"none"')),
+        dict(name="memo", module="GlobMemo", cfg="MC_GlobMemo_quick.cfg" if quick else "MC_GlobMemo.cfg"),
+        dict(name="emit-memo", module="GlobMemo", cfg="MC_GlobMemo_emit.cfg", tags={"EDGE"}),
+        dict(name="neg-memojoined-lf", module="GlobMemo", expect="OutFaithful",
+             cfg=cfg_text("MC_GlobMemo_quick.cfg", inv=["OutFaithful"], MemoKeyJoined="TRUE")),
     ]
     if not quick:
         jobs += [
+            dict(name="neg-memojoined-blank", module="GlobMemo", expect="OutFaithful",
+                 cfg=cfg_text("MC_GlobMemo_quick.cfg", inv=["OutFaithful"], MemoKeyJoined="TRUE", JoinSep="32")),
+            dict(name="neg-memojoined-nosep", module="GlobMemo", expect="OutFaithful",
+                 cfg=cfg_text("MC_GlobMemo_quick.cfg", inv=["OutFaithful"], MemoKeyJoined="TRUE", JoinSep="0")),
             dict(name="emit-match-a", module="Glob", tags={"CASE"},
                  cfg=cfg_text("MC_Glob_bnd_a.cfg", inv=["EmitCase"], SPEC="ESpec", Emit='"match"', MaxNameLen="3")),
             dict(name="emit-match-b", module="Glob", tags={"CASE"},
@@ -613,7 +769,7 @@ def run(ctx):
         ]
     if quick:
         # the single big job gets W workers; the small ones share the remaining cores
-        res = book_jobs(ctx, jobs, exec_jobs(ctx, jobs, 4))
+        res = book_jobs(ctx, jobs, exec_jobs(ctx, jobs, 5))
     else:
         # big runs one after the other (W workers each); the single-worker runs in a second lane
         bigs = [j for j in jobs if j.get("workers", 1) > 1]
@@ -624,7 +780,7 @@ def run(ctx):
             r1, r2 = f1.result(), f2.result()
         res = book_jobs(ctx, bigs + smalls, r1 + r2)
     t_tlc = time.time()
-    ctx.extra["constants"] = {"alphabet": "a b / . * ? \\ LF (quick design check without '.')", "quick": "2 patterns x 2, names 2",
+    ctx.extra["constants"] = {"alphabet": "a b / . * ? \\ LF (quick design check without '/' and '.', which are plain literals in the model)", "quick": "2 patterns x 2, names 2",
                               "thorough": "a: 1x3/names 4; b: 2x2/names 3; c: 2x3/names 3 over a * ? \\ LF",
                               "documents": "<= 3 paragraphs, <= 2 patterns, <= 3 (thorough 4) symbols"}
 
@@ -656,8 +812,25 @@ def run(ctx):
             n_lists += 1
             nontrivial = (not ok) or (0 < len(mset) < len(names))
             ctx.case_seen((ename, skey(cse["ps"])), nontrivial)
+            direct = all(len(p) > 0 for p in ps) and (not representable(ps) or idx % 4 == 0)
+            if direct:
+                # globs_to_re called directly: the only way to a pattern that contains a newline
+                stats["direct_api_lists"] = stats.get("direct_api_lists", 0) + 1
+                for kind in ("canon", "rand"):
+                    cmap = conc_map(rng, kind)
+                    bad = check_direct_case(ps, ok, mset, names, cmap)
+                    n_pairs += len(names)
+                    if bad:
+                        nm, exp, got = bad
+                        pats = [cstr(cmap, p) for p in ps]
+                        report({"kind": "direct", "ps": [list(p) for p in ps], "ok": ok, "name": nm, "expected": exp,
+                                "cmap": jmap(cmap), "patterns": pats, "filename": None if nm is None else cstr(cmap, nm)},
+                               "globs_to_re(%r)%s -> %s, specification (GlobMatch) says %s"
+                               % (pats, "" if nm is None else ".fullmatch(%r)" % cstr(cmap, nm), got, exp))
+                        break
             if not representable(ps):
-                check_unrepresentable(ctx, ps, ok, mset, names, stats)
+                if not direct:
+                    check_unrepresentable(ctx, ps, ok, mset, names, stats)
                 stats["unrepresentable_lists"] = stats.get("unrepresentable_lists", 0) + 1
                 continue
             if ename == "emit-match":
@@ -773,7 +946,116 @@ def run(ctx):
         if msg:
             report({"kind": "cache", "start": g.states[sk]["files"], "path": [strip(x) for x in path],
                     "cmap": jmap(cmap), "route": route, "bad": bad_lists}, msg)
+    # error-path histories: on ONE paragraph object, a query that raises the format error followed by
+    # further queries (same and other names, matches and find) without touching Files, then Files set to
+    # a legal value, queried, and set back to the ill-formed value
+    def follow(sk, steps):
+        out = []
+        for op, arg in steps:
+            nxt = [x for x in g.out.get(sk, []) if x["op"] == op and x["args"][0] == arg]
+            if not nxt:
+                raise core.MachineryError("cache LTS has no edge %s(%r) from %s" % (op, arg, sk))
+            out.append(nxt[0])
+            sk = nxt[0]["_t"]
+        return out
+
+    qnames = sorted({tuple(e["args"][0]) for e in g.edges if e["op"] == "matches"})
+    legal = [json.loads(k)["files"] for k in init_keys if skey(json.loads(k)["files"]) not in bad_lists]
+    n_err = 0
+    for bk in (bad_lists if "cache" in LEGS else []):
+        b = json.loads(bk)
+        for lg in legal:
+            for rep_ in range(1 if quick else 4):
+                if nviol[0] >= 5:
+                    break
+                n1, n2, n3 = [list(x) for x in rng.sample(qnames, 3)]
+                q = rng.choice(["matches", "find"])
+                steps = [(q, n1), ("matches", n1), ("find", n1), ("matches", n2), ("find", n3),
+                         ("setfiles", lg), ("matches", n1), ("find", n2), ("setfiles", b),
+                         ("find", n1), ("matches", n1), ("matches", n3), ("find", n2)]
+                start = rng.choice([b, lg])
+                if start is lg:
+                    steps = [("matches", n2), ("setfiles", b)] + steps
+                path = follow(skey({"files": start, "key": []}), steps)
+                cmap = conc_map(rng, rng.choice(["canon", "rand", "case"]))
+                route = rng.choice(["prog", "text", "prog-set"])
+                msg = run_cache_path(start, path, cmap, route, bad_lists)
+                ctx.case_seen(("cache-error-path", bk, skey(lg), rep_), True)
+                n_beh += 1
+                n_err += 1
+                if msg:
+                    report({"kind": "cache", "start": start, "path": [strip(x) for x in path],
+                            "cmap": jmap(cmap), "route": route, "bad": bad_lists}, msg)
     ctx.extra["cache_behaviours_replayed"] = n_beh
+    ctx.extra["cache_error_path_histories"] = n_err
+
+    # ---- 4b. spec -> code: direct globs_to_re histories (GlobMemo): lists whose joined text
+    # coincides, translated in both orders within this process, interleaved with FilesParagraph use
+    m_edges = res["emit-memo"].printed.get("EDGE", [])
+    if not m_edges:
+        raise core.MachineryError("no EDGE lines from GlobMemo")
+    gm = LTS(m_edges, [])
+    ctx.extra["memo_lts"] = {"states": len(gm.states), "edges": len(gm.edges)}
+    for e in gm.edges:
+        ops["memo-" + e["op"]] = ops.get("memo-" + e["op"], 0) + 1
+    pool_ok = sorted({skey(e["args"][0]) for e in gm.edges if e["op"] == "translate" and e["res"] == "ok"})
+    pool_bad = sorted({skey(e["args"][0]) for e in gm.edges if e["op"] == "translate" and e["res"] != "ok"})
+    mnames = sorted({tuple(e["args"][0]) for e in gm.edges if e["op"] == "query"})
+    para_ok = sorted({skey(e["args"][0]) for e in gm.edges if e["op"] == "paramatch"})
+
+    def mfollow(sk, steps):
+        out = []
+        for op, args in steps:
+            nxt = [x for x in gm.out.get(sk, []) if x["op"] == op and x["args"] == args]
+            if not nxt:
+                raise core.MachineryError("memo LTS has no edge %s(%r) from %s" % (op, args, sk))
+            out.append(nxt[0])
+            sk = nxt[0]["_t"]
+        return out
+
+    fresh = [(x, y) for x in LIT_POOL for y in LIT_POOL if x != y and not ({x, y} & set("',|xX"))]
+    rng.shuffle(fresh)
+    n_memo = 0
+
+    def memo_run(steps):
+        nonlocal n_memo
+        if nviol[0] >= 5 or "memo" not in LEGS:
+            return
+        path = mfollow(skey([]), steps)
+        cmap = memo_cmap(*fresh[n_memo % len(fresh)]) if n_memo else {}
+        n_memo += 1
+        msg = run_memo_path(path, cmap)
+        ctx.case_seen(("memo", n_memo), True)
+        if msg:
+            report({"kind": "memo", "path": [strip(x) for x in path], "cmap": jmap(cmap)}, msg)
+
+    allq = [("query", [list(nm)]) for nm in mnames]
+    for ki in pool_ok:
+        for kj in pool_ok:
+            if ki == kj:
+                continue
+            i, j = json.loads(ki), json.loads(kj)
+            memo_run([("translate", [i])] + allq + [("translate", [j])] + allq + [("translate", [i])] + allq)
+            if kj in para_ok:
+                memo_run([("translate", [i])] + [("paramatch", [j, list(nm)]) for nm in mnames] + allq)
+            if ki in para_ok:
+                memo_run([("paramatch", [i, list(nm)]) for nm in mnames[:3]] + [("translate", [j])] + allq
+                         + [("paramatch", [i, list(nm)]) for nm in mnames])
+        for kb in pool_bad:
+            memo_run([("translate", [json.loads(ki)]), ("translate", [json.loads(kb)])] + allq
+                     + [("translate", [json.loads(kb)])])
+    for w in range((60 if quick else 600) if "memo" in LEGS else 0):
+        if nviol[0] >= 5:
+            break
+        path = gm.walk(rng, skey([]), 16)
+        cmap = memo_cmap(*fresh[(n_memo + w) % len(fresh)])
+        msg = run_memo_path(path, cmap)
+        ctx.case_seen(("memo-walk", w), True)
+        n_memo += 1
+        if msg:
+            report({"kind": "memo", "path": [strip(x) for x in path], "cmap": jmap(cmap)}, msg)
+    ctx.extra["memo_behaviours_replayed"] = n_memo
+    n_beh += n_memo
 
     t_cache = time.time()
     # ---- 5. code -> spec: recorded histories validated by TLC
@@ -817,14 +1099,21 @@ def run(ctx):
         t = traces[i - 1]
         at = info.get(i, 0)
         ev = t["events"][at] if at < len(t["events"]) else None
-        op = t["script"]["ops"][at - 1] if 0 < at <= len(t["script"]["ops"]) else None
+        oi = ev.get("oi") if ev else None
+        op = t["script"]["ops"][oi] if oi is not None else None
         cur = [list(ps) for ps in t["script"]["paras"]]
-        for o in t["script"]["ops"][:max(0, at - 1)]:
+        held = None
+        for o in t["script"]["ops"][:oi or 0]:
             if o[0] == "setfiles":
                 cur[o[1]] = o[2]
+            elif o[0] == "translate":
+                held = o[1]
+        where = ("the regex of globs_to_re(%r); earlier direct translations in this history: %r"
+                 % (held, [o[1] for o in t["script"]["ops"][:oi or 0] if o[0] == "translate"])
+                 if op and op[0] in ("query", "translate") else "the document with Files paragraphs %r" % (cur,))
         report({"kind": "trace", "script": t["script"], "first_unexplained_event": at + 1},
-               "recorded history not explained by the Glob reference: event %d %r = call %r on the document with Files paragraphs %r"
-               % (at + 1, ev, op, cur))
+               "recorded history not explained by the Glob reference: event %d %r = call %r on %s"
+               % (at + 1, ev, op, where))
 
 
 def replay(ctx, case):
@@ -843,6 +1132,20 @@ def replay(ctx, case):
         if got != case["expected"]:
             return "Files %r: matches(%r) -> %s, specification says %s" % (pats, cstr(cmap, case["name"]), got, case["expected"])
         return None
+    if kind == "direct":
+        cmap = unjmap(case["cmap"])
+        pats = [cstr(cmap, p) for p in case["ps"]]
+        got, rx = obs_translate(pats)
+        if case["name"] is None:
+            return None if got == case["expected"] else "globs_to_re(%r) -> %s, specification says %s" % (pats, got, case["expected"])
+        if rx is None:
+            return "globs_to_re(%r) -> %s" % (pats, got)
+        got = obs_query(rx, cstr(cmap, case["name"]))
+        if got != case["expected"]:
+            return "globs_to_re(%r).fullmatch(%r) -> %s, specification says %s" % (pats, cstr(cmap, case["name"]), got, case["expected"])
+        return None
+    if kind == "memo":
+        return run_memo_path(case["path"], unjmap(case["cmap"]))
     if kind == "doc":
         d = [[tuple(p) for p in ps] for ps in case["doc"]]
         fexp = [(tuple(a), b, c) for a, b, c in case["f"]]
